@@ -138,6 +138,8 @@ class PathExec:
                         v = v[1][e["i"]]
                     elif v[0] == "struct":
                         v = v[2][e["i"]] if e["i"] < len(v[2]) else ("unknown", "field")
+                    elif v[0] == "closure" and "closure" in e:
+                        v = v[2][e["i"]] if e["i"] < len(v[2]) else ("unknown", "capture")     # a capture of a closure built on this path
                     else:
                         v = ("unknown", "field of %s" % v[0])
                 elif e["k"] == "downcast":
@@ -684,6 +686,17 @@ def rule_s_shrink(ctx):
                 bad_head = "bound %s is outside the size-expression class (%s)" % (shown, u)
                 break
             m, o = cur(st, "m"), cur(st, "o")
+            # the obligation is about the case that an old table is pending; there "the old table's length, or 0 when there is none"
+            # (oz, e.g. a `pending_moves()` helper read once into a local) is the old table's length
+            def _oz_is_o(e):
+                if not isinstance(e, tuple):
+                    return e
+                if e[0] == "var" and isinstance(e[1], str) and (e[1] == "oz" or e[1].startswith("oz@")):
+                    return ("var", "o" + e[1][2:])
+                if e[0] == "const":
+                    return e
+                return tuple(_oz_is_o(x) if isinstance(x, tuple) else x for x in e)
+            arg = _oz_is_o(arg)
             # o read earlier under the same version?  if the path never read o we cannot relate: use the variable anyway
             lower = {}
             if st.get("nonempty") or (st["ne"] and st["left"] == S):
